@@ -43,6 +43,16 @@ def _fold_text(m, x, depth=0):
               and any(isinstance(t, ast.Name) and t.id == x.id
                       for t in st.targets)]
         return _fold_text(m, ds[0], depth + 1) if len(ds) == 1 else None
+    if isinstance(x, ast.Attribute) and x.attr == 'pattern' and \
+            isinstance(x.value, ast.Name):
+        # OTHER.pattern: the text another compiled pattern was made from
+        ds = [st.value for st in m.tree.body if isinstance(st, ast.Assign)
+              and any(isinstance(t, ast.Name) and t.id == x.value.id
+                      for t in st.targets)]
+        if len(ds) == 1 and isinstance(ds[0], ast.Call) and \
+                ast.unparse(ds[0].func) == 're.compile' and ds[0].args:
+            return _fold_text(m, ds[0].args[0], depth + 1)
+        return None
     if isinstance(x, ast.BinOp) and isinstance(x.op, ast.Add):
         a = _fold_text(m, x.left, depth + 1)
         b = _fold_text(m, x.right, depth + 1)
